@@ -282,6 +282,13 @@ type C16J struct {
 }
 
 // C16Named names its values itself (cqrs.NamedStruct): the name depends on the value.
+// C16Dyn has dynamically typed positions: what JSON decodes there by default (float64, string, bool, nil, maps, slices) comes back as it went in.
+type C16Dyn struct {
+	A any
+	M map[string]any
+	L []any
+}
+
 type C16Named struct {
 	Kind string
 	X    int
@@ -312,7 +319,9 @@ func c16Codecs(r *tr.Run, rng *rand.Rand, nm int) int {
 		return 0
 	}
 	defer f.Close()
+	var lastEnv *message.Message
 	envelope := func(topic string, m *message.Message) {
+		lastEnv = nil
 		orig := c16Project(m)
 		orig["topic"] = topic
 		before := len(capture.Calls())
@@ -321,6 +330,7 @@ func c16Codecs(r *tr.Run, rng *rand.Rand, nm int) int {
 			return
 		}
 		env := capture.Calls()[before].Msgs[0]
+		lastEnv = env.Copy()
 		db := len(dst.Calls())
 		if !src.Emit("fwd", env) {
 			r.Emit("hung", "what", "forwarder emit")
@@ -427,6 +437,11 @@ func c16Codecs(r *tr.Run, rng *rand.Rand, nm int) int {
 						m.Metadata.Set(c16Str(kc, rng, rep), c16Str(c16StrClasses[(round+len(kc)+len(tc))%5], rng, rep))
 					}
 					envelope(c16Str(tc, rng, rep), m)
+					if inner := lastEnv; inner != nil && (len(uc)+len(pc)+round)%3 == 0 {
+						// an envelope is a message like any other (chained forwarders, relayed envelopes): enveloped again with
+						// another destination it comes back as it was, on that destination
+						envelope("relay/"+c16Str(tc, rng, rep), inner)
+					}
 				}
 			}
 		}
@@ -489,6 +504,19 @@ func c16Codecs(r *tr.Run, rng *rand.Rand, nm int) int {
 						b = norm(back)
 					}
 					r.Emit("rt", "kind", "cqrs-json", "orig", norm(v), "back", b, "nameok", ok && jm.NameFromMessage(msg) == jm.Name(v))
+					n++
+				}
+				{
+					f := float64(rng.Intn(100000)) / 8
+					dv := &C16Dyn{A: f, M: map[string]any{"n": f + 0.5, "s": s, "in": map[string]any{"k": float64(round), "t": true}}, L: []any{s, f, true, nil, []any{float64(1)}}}
+					if round%2 == 1 {
+						dv.A = s
+					}
+					jm := cqrs.JSONMarshaler{}
+					msg, err := jm.Marshal(dv)
+					back := &C16Dyn{}
+					ok := err == nil && jm.Unmarshal(msg, back) == nil && reflect.DeepEqual(dv, back)
+					r.Emit("rt", "kind", "cqrs-json-dynamic", "orig", "v", "back", map[bool]string{true: "v", false: "different"}[ok], "nameok", err == nil && jm.NameFromMessage(msg) == jm.Name(dv))
 					n++
 				}
 				pv := wrapperspb.String(s)
